@@ -1218,7 +1218,7 @@ func TestProp(t *testing.T) {
 		propTransparent)
 
 	run.Check("acting", 5000, 44000,
-		"program = generated program whose integer literals (not dict keys, not slice bounds) are eligible, or (always while finding C17-F01 is open) a program of unguarded shapes; a drawn subset of the literals is written in 1-3 of 8 matching syntaxes (regex E<k>, <k>!, 骰<k>点, Q<k>[_<j>]; stream C<k>T<j>, @<k>, 掷<k>, Z<k> with read-ahead) registered in drawn order among passive extensions, handlers that reuse one value object / scribble over their groups / fail at the n-th call. Oracle as in contexts. Non-trivial = at least one handler call; distinct by source, seed, extension set",
+		"program = generated program whose integer literals (not dict keys, not slice bounds) are eligible, or (1/3 of the cases; always while an open finding asks to keep custom operands out of look-ahead guarded positions) a program of unguarded shapes; a drawn subset of the literals is written in 1-3 of 8 matching syntaxes (regex E<k>, <k>!, 骰<k>点, Q<k>[_<j>]; stream C<k>T<j>, @<k>, 掷<k>, Z<k> with read-ahead) registered in drawn order among passive extensions, handlers that reuse one value object / scribble over their groups / fail at the n-th call. Oracle as in contexts. Non-trivial = at least one handler call; distinct by source, seed, extension set",
 		propActing)
 
 	run.Check("restored", 2500, 16000,
